@@ -23,6 +23,8 @@ structure SrvIn where
   ws : List Time
   /-- > 0: the listener was still being started when shutdown began — its address was busy until `pending` ms after -/
   pending : Nat
+  /-- > 0: `ListenAndServe*` was called only `late` ms after `proxy.Shutdown` began -/
+  late : Nat
 
 def parseTime (j : Json) : Except String Time :=
   match j with
@@ -45,11 +47,14 @@ def parseSrv (j : Json) : Except String SrvIn := do
   let removed := (j.getObjValAs? Bool "removed").toOption.getD false
   let ws ← parseTimes j "ws"
   let pending := (j.getObjValAs? Nat "pending").toOption.getD 0
-  return { kind, work, hwork, dial, removed, ws, pending }
+  let late := (j.getObjValAs? Nat "late").toOption.getD 0
+  return { kind, work, hwork, dial, removed, ws, pending, late }
 
 def toServer (s : SrvIn) : Except String Server :=
   match s.kind with
   | "http" => .ok (.single { kind := .http, work := s.work, hijacked := s.ws })
+  | "https" => .ok (.single { kind := .http, work := s.work, hijacked := s.ws })
+  | "prom" => .ok (.single { kind := .http, work := s.work })
   | "tcp" => .ok (.single { kind := .tcp, work := s.work ++ List.replicate s.dial none })
   | "sni" => .ok (.single { kind := .tcp, work := s.work ++ List.replicate s.dial none })
   | "grpc" => .ok (.single { kind := .grpc, work := s.work })
@@ -69,6 +74,8 @@ def durStr : DurClass → String
 def leafKinds (s : SrvIn) : Kind × Kind :=
   match s.kind with
   | "http" => (.http, .http)
+  | "https" => (.http, .http)
+  | "prom" => (.http, .http)
   | "grpc" => (.grpc, .grpc)
   | "inetaf" => (.tcp, .http)
   | _ => (.tcp, .tcp)
@@ -115,7 +122,7 @@ def shutdownH : Handler := fun inp impl => do
   let starts ← srvs.zipIdx.mapM (fun (s, i) => do
     let srv ← toServer s
     let (_, r) := listenAndServe (s.pending > 0) (toString i) srv []
-    return ({ addr := toString i, srv := srv, registersAt := if r == .registered then some 0 else none } : Start))
+    return ({ addr := toString i, srv := srv, registersAt := if r == .registered then some (if s.late > 0 then 1 + s.late else 0) else none } : Start))
   let reg := srvs.zipIdx.foldl (fun reg (s, i) => if s.removed then closeProxy (toString i) reg else reg) (snapshot 1 starts)
   let servers := reg.map (·.2)
   let ret := shutdownAll wsContract contract 0 wait servers
@@ -135,8 +142,9 @@ def shutdownH : Handler := fun inp impl => do
   let kindsWith (p : SrvIn → Bool) := srvs.any p
   let gOpen := kindsWith (fun s => s.kind == "grpc" && beyond wait s.work)
   let tOpen := kindsWith (fun s => (s.kind == "tcp" || s.kind == "sni" || s.kind == "inetaf") && beyond wait s.work)
-  let hOpen := kindsWith (fun s => (s.kind == "http" && beyond wait s.work) || (s.kind == "inetaf" && beyond wait s.hwork))
+  let hOpen := kindsWith (fun s => ((s.kind == "http" || s.kind == "https") && beyond wait s.work) || (s.kind == "inetaf" && beyond wait s.hwork))
   let cls := if srvs.any (·.removed) then "route-removed-before-shutdown"
+             else if srvs.any (·.late > 0) then "listener-started-after-shutdown-began"
              else if srvs.any (·.pending > 0) then "listener-start-pending"
              else if srvs.any (fun s => !s.ws.isEmpty) then "websocket-session" else if dOpen then "tcp-dial-pending" else if gOpen then "grpc-open-work" else if tOpen then "tcp-open-work" else if hOpen then "http-open-work"
              else if nwork > 0 then "short-work-only" else "idle"
@@ -149,7 +157,7 @@ def shutdownH : Handler := fun inp impl => do
       ("dur", (impl.getObjVal? "dur").toOption.getD Json.null),
       ("servers", (impl.getObjVal? "servers").toOption.getD Json.null),
       ("accepted", (impl.getObjVal? "accepted").toOption.getD Json.null)]
-    return ({ model := m, agree := m == implCore, spec := sp, nontrivial := nwork > 0 || srvs.any (·.pending > 0), tag := tag } : Verdict).toJson
+    return ({ model := m, agree := m == implCore, spec := sp, nontrivial := nwork > 0 || srvs.any (fun s => s.pending > 0 || s.late > 0), tag := tag } : Verdict).toJson
 
 /-! `c18.process`: the real `fabio` binary, SIGTERM, probes. Input: `{"wait","grace","dynamic":bool,"refresh"}`;
 observation: `{"exit": "early|deadline|over", "accepted_after": bool, "order_ok": bool, "short_completed": bool}`. -/
@@ -165,6 +173,7 @@ def processH : Handler := fun inp impl => do
   let httpLeaf : Leaf := { kind := .http, work := if via == "http" then two else [], hijacked := if via == "ws" then two else [] }
   let servers : List Server := [.single httpLeaf]
     ++ (if notcp then [] else [.single { kind := .tcp, work := if via == "" then two else [] }])
+    ++ (if via == "grpc" then [.single { kind := .grpc, work := two }] else [])
     ++ (if dynamic then [.single { kind := .tcp, work := [] }] else [])
   -- signal at tick 0: the handler sleeps the grace period, calls proxy.Shutdown(wait), the process ends when it returns
   let exit := processExit wsContract contract 0 grace wait servers
@@ -181,7 +190,7 @@ def processH : Handler := fun inp impl => do
     let sp := ex != "over" && !acc && ord && sh
     let second := (inp.getObjValAs? String "second").toOption.getD ""
     let base := (if dynamic then "dynamic" else "static") ++ (if second != "" then "+second-signal" else "")
-      ++ (if via == "http" then "+http-request" else if via == "ws" then "+websocket" else "") ++ (if notcp then "+no-tcp-listener" else "")
+      ++ (if via == "http" then "+http-request" else if via == "ws" then "+websocket" else if via == "grpc" then "+grpc-stream" else "") ++ (if notcp then "+no-tcp-listener" else "")
     let tag := if acc then base ++ "-listener-accepts-after-shutdown" else if !sh then base ++ "-short-work-cut"
                else if !ord then base ++ "-closed-during-grace" else if ex == "over" then base ++ "-exit-late" else base
     return ({ model := m, agree := m == core, spec := sp, nontrivial := true, tag := tag } : Verdict).toJson
